@@ -466,20 +466,22 @@ def _plans(tier, rng):
         out.append(("Net(6,6,3) sample x sampled trees x sampled subsets", scope.sample_networks(6, 6, 3, 40, rng), False,
                     {"trees": 30, "ops": 2, "rec_max_slices": 12}, "seeded sample of 40 networks; 30 random of 945 trees"))
     else:
+        # order matters under a time limit: complete small scopes, then the samples of larger networks,
+        # then the big scopes "as far as time allows"
         out.append(("Net(2,3,3) x tree x ALL subsets(<=3) x slice/project x orders", list(scope.networks(2, 3, 3)), True,
                     {"trees": "all", "ops": "all"}, "all 3108 networks; recording run on every case"))
         out.append(("Net(3,3,2) x all trees x ALL subsets(<=3) x slice/project x orders", list(scope.networks(3, 3, 2)), True,
                     {"trees": "all", "ops": "all"}, "all 4106 networks; all 3 trees; recording run on every case"))
-        out.append(("Net(3,3,3) x all trees x sampled subsets", list(scope.networks(3, 3, 3)), False,
-                    {"trees": "all", "ops": 4, "rec_every": 2}, "all 152423 networks; all 3 trees; 4 seeded subsets each + unsliced"))
-        out.append(("Net(4,3,2) x all trees x sampled subsets", list(scope.networks(4, 3, 2)), False,
-                    {"trees": "all", "ops": 2, "rec_every": 2}, "all 63361 networks; all 15 trees; 2 seeded subsets each + unsliced"))
         out.append(("Net(4,4,3) sample x all trees x sampled subsets", scope.sample_networks(4, 4, 3, 6000, rng), False,
                     {"trees": "all", "ops": 4}, "seeded sample of 6000 networks"))
         out.append(("Net(5,5,3) sample x all trees x sampled subsets", scope.sample_networks(5, 5, 3, 1000, rng), False,
                     {"trees": "all", "ops": 3, "rec_max_slices": 12}, "seeded sample of 1000 networks; all 105 trees"))
         out.append(("Net(6,6,3) sample x sampled trees x sampled subsets", scope.sample_networks(6, 6, 3, 1000, rng), False,
                     {"trees": 100, "ops": 2, "rec_max_slices": 12}, "seeded sample of 1000 networks; 100 random of 945 trees"))
+        out.append(("Net(3,3,3) x all trees x sampled subsets", list(scope.networks(3, 3, 3)), False,
+                    {"trees": "all", "ops": 4, "rec_every": 2}, "all 152423 networks; all 3 trees; 4 seeded subsets each + unsliced"))
+        out.append(("Net(4,3,2) x all trees x sampled subsets", list(scope.networks(4, 3, 2)), False,
+                    {"trees": "all", "ops": 2, "rec_every": 2}, "all 63361 networks; all 15 trees; 2 seeded subsets each + unsliced"))
     return out
 
 
